@@ -49,7 +49,7 @@ pub struct MagCrystal {
     pub action: RotationMagneticMomentAction,
     pub uni: i32,
     pub construct_type: u8,
-    /// "plain" | "reversed" | "zero"
+    /// "plain" | "reversed" | "zero" | "cant"
     pub variant: String,
     /// true when the generating group forces the moment to vanish (grey groups)
     pub forced_zero: bool,
@@ -107,6 +107,35 @@ impl MagCrystal {
         }
         r.variant = "reversed".into();
         r.c.truth.steps.push("reverse".into());
+        r
+    }
+    /// perturb the moments of about half of the base atoms by a vector (collinear: scalar) of size in [lo, hi]:
+    /// a weakly canted structure whose magnetic group is an unknown subgroup of the generating one
+    pub fn cant_moments(&self, rng: &mut Rng, lo: f64, hi: f64) -> MagCrystal {
+        let mut r = self.clone();
+        let mut any = false;
+        let n = r.base_moments.len();
+        for (i, m) in r.base_moments.iter_mut().enumerate() {
+            if !(rng.chance(0.5) || (!any && i + 1 == n)) {
+                continue;
+            }
+            any = true;
+            let size = rng.uniform(lo, hi);
+            match self.kind {
+                Kind::NonCollinear => {
+                    let v = loop {
+                        let v = Vector3::new(rng.normal(), rng.normal(), rng.normal());
+                        if v.norm() > 1e-3 {
+                            break v / v.norm();
+                        }
+                    };
+                    *m += v * size;
+                }
+                Kind::Collinear => m[0] += if rng.chance(0.5) { size } else { -size },
+            }
+        }
+        r.variant = "cant".into();
+        r.c.truth.steps.push("cant".into());
         r
     }
     pub fn zero_moments(&self) -> MagCrystal {
